@@ -129,9 +129,14 @@ def i2b(v, n):
     return format(v, '0%db' % n) if n else ''
 
 
+WIDE_PREFIX = [False]      # tests of the decoder only: announce every size on the next wider form (not what RFC 8724 7.4.2 prescribes)
+
+
 def ref_size_prefix(n):
     """RFC 8724 section 7.4.2"""
     assert 0 <= n < 65536
+    if WIDE_PREFIX[0]:
+        return '1111' + i2b(n, 8) if n < 15 else '1111' * 3 + i2b(n, 16)
     if n < 15:
         return i2b(n, 4)
     if n < 255:
